@@ -29,8 +29,8 @@ CLAIMED['C04'] = ('6/C04', 'Bounded symbolic check against the reference dispatc
                   'model variant encoding exactly that deviation.',
                   'symbolic execution (CrossHair+z3) of batching/trigger/discard code against a reference dispatcher with context stack')
 CLAIMED['C05'] = ('6/C05', 'Bounded-exhaustive symbolic fault injection with a differential oracle: one or two failing operations of symbolic kind '
-                  '(13 kinds: raising watcher during set/trigger/batch flush/update/queued callback, rejected value or unknown key at a '
-                  'symbolic position of param.update, unknown trigger name, exception escaping the body of each context manager, rejected '
+                  '(23 kinds, listed in the evidence file: raising watcher during set/trigger/batch flush/update/queued callback, rejected value or unknown key at a '
+                  'symbolic position of param.update, unknown trigger name, trigger rejecting a value invalidated in place, exception escaping the body of each context manager, rejected '
                   'constructor value), optionally inside a surrounding batch, symbolic raiser precedence and values; afterwards a fixed probe '
                   'program runs on the faulted object and on a freshly built twin and the callback traces, values, constant flags and Event '
                   'state must coincide; applied-before-rejection changes must be announced by the raise.',
